@@ -678,6 +678,8 @@ class RunLength2dArray(IndexableMixin, np.lib.mixins.NDArrayOperatorsMixin):
         else:
             values = self._values.ravel()
         assert len(values) == len(positions), (values, positions)
+        if values.dtype == bool:
+            values = values.astype(int)  # count the True cells, as numpy's sum of booleans does
         if np.issubdtype(values.dtype, np.integer):
             if np.issubdtype(values.dtype, np.signedinteger):
                 values = values.astype(int)
